@@ -356,8 +356,10 @@ func (f *Frame) applyContract(ct *Contract, fn *ssa.Function, sig *types.Signatu
 					senv[k] = v
 				}
 				for _, rq := range sc.Requires {
-					g := f.evalClause(rq, senv, st, &f.top().entry)
-					un.obligeNamed(st, fmt.Sprintf("site:%s#%s@%s", shortFn(name), rq.label(), un.posOf(pos)), "callsite", rq.Text, un.posOf(pos), g)
+					gs := f.evalGoals(rq, senv, st, &f.top().entry)
+					for gi, g := range gs {
+						un.obligeNamed(st, fmt.Sprintf("site:%s#%s%s@%s", shortFn(name), rq.label(), partSuffix(gi, len(gs)), un.posOf(pos)), "callsite", rq.Text, un.posOf(pos), g)
+					}
 				}
 			}
 		}
@@ -376,12 +378,14 @@ func (f *Frame) applyContract(ct *Contract, fn *ssa.Function, sig *types.Signatu
 		un.obligeNamed(st, fmt.Sprintf("escape:%s@%s", shortFn(name), un.posOf(pos)), "escape", "a panic of "+shortFn(name)+" is recovered by a deferred function of "+top.fn.Name(), un.posOf(pos), goal)
 	}
 	for _, rq := range ct.Requires {
-		g := f.evalClause(rq, env, st, st)
 		if f.pure {
-			un.assume(st, g)
-		} else {
-			un.ord["call"]++
-			un.obligeNamed(st, fmt.Sprintf("pre:%s#%s@%s", shortFn(name), rq.label(), un.posOf(pos)), "precondition", rq.Text, un.posOf(pos), g)
+			un.assume(st, f.evalClause(rq, env, st, st))
+			continue
+		}
+		un.ord["call"]++
+		gs := f.evalGoals(rq, env, st, st)
+		for gi, g := range gs {
+			un.obligeNamed(st, fmt.Sprintf("pre:%s#%s%s@%s", shortFn(name), rq.label(), partSuffix(gi, len(gs)), un.posOf(pos)), "precondition", rq.Text, un.posOf(pos), g)
 		}
 	}
 	old := st.clone()
@@ -631,6 +635,39 @@ func (f *Frame) resolveMod(m string, env map[string]Val, st *State) []modEntry {
 		un.heapInit(dn, ArrSort(SInt, ArrSort(ks, SBool)))
 		un.heapInit(vn, ArrSort(SInt, ArrSort(ks, vs)))
 		return []modEntry{{heap: dn, ref: cv.T}, {heap: vn, ref: cv.T}}
+	case strings.HasPrefix(m, "allfields(") && strings.HasSuffix(m, ")"):
+		// every field (ghost fields included) of every object of the struct type of the expression
+		e, err := ParseExpr(m[10 : len(m)-1])
+		if err != nil {
+			f.fail("modifies %s: %v", m, err)
+		}
+		cv := f.eval(e, &evalCtx{env: env, cur: st, old: st})
+		T, sty := derefStruct(cv.Go)
+		if sty == nil {
+			f.fail("modifies %s: not a struct pointer", m)
+		}
+		var out []modEntry
+		for _, fi := range un.sinfo(T).fields {
+			hn := un.fieldHeap(T, fi.name)
+			un.heapInit(hn, ArrSort(SInt, fi.sort))
+			out = append(out, modEntry{heap: hn})
+		}
+		return out
+	case strings.HasPrefix(m, "allmaps(") && strings.HasSuffix(m, ")"):
+		e, err := ParseExpr(m[8 : len(m)-1])
+		if err != nil {
+			f.fail("modifies %s: %v", m, err)
+		}
+		cv := f.eval(e, &evalCtx{env: env, cur: st, old: st})
+		mt, ok := cv.Go.Underlying().(*types.Map)
+		if !ok {
+			f.fail("modifies %s: not a map", m)
+		}
+		dn, vn := un.mapHeaps(cv.Go)
+		ks, vs := un.u.SortOf(mt.Key()), un.u.SortOf(mt.Elem())
+		un.heapInit(dn, ArrSort(SInt, ArrSort(ks, SBool)))
+		un.heapInit(vn, ArrSort(SInt, ArrSort(ks, vs)))
+		return []modEntry{{heap: dn}, {heap: vn}}
 	case strings.HasPrefix(m, "fields(") && strings.HasSuffix(m, ")"):
 		e, err := ParseExpr(m[7 : len(m)-1])
 		if err != nil {
@@ -1034,4 +1071,12 @@ func deferRecovers(d deferred) bool {
 		}
 	}
 	return false
+}
+
+// partSuffix names the independently proved parts of one clause: "", or ".1", ".2", ...
+func partSuffix(i, n int) string {
+	if n <= 1 {
+		return ""
+	}
+	return fmt.Sprintf(".%d", i+1)
 }
